@@ -1490,6 +1490,16 @@ class Walker:
         def cont(vals, s):
             a, b = vals
             if a.kind == "const" and b.kind == "const":
+                if self.exact_loops and isinstance(node.op, ast.Mod) and isinstance(a.value, (str, bytes)) \
+                        and (_printable(b.value) or (isinstance(b.value, tuple) and all(_printable(x) for x in b.value))):
+                    # "format" % values fails the same way at run time when the format does not fit the values
+                    try:
+                        a.value % b.value
+                    except (TypeError, ValueError) as exc:
+                        s.add(Event("raise", node, type(exc).__name__, self.frame, "implicit"))
+                        return [("raise", type(exc).__name__, s)]
+                    except Exception:
+                        pass
                 return [("val", _binop(node.op, a.value, b.value), s)]
             return [("val", UNK, s)]
         return self._seq([node.left, node.right], st, cont)
@@ -1722,6 +1732,11 @@ class Walker:
                     return [("val", Const(recv[0].value.format(*[a.value for a in args], **{k: v.value for k, v in kws.items()})), s)]
                 except Exception:
                     pass
+            if self.exact_loops and isinstance(node.func, ast.Attribute) and len(recv) == 1 and recv[0].kind == "const" \
+                    and recv[0].value is None and not hasattr(None, node.func.attr):
+                # None.splitlines(): no such method
+                s.add(Event("raise", node, "AttributeError", self.frame, "implicit"))
+                return [("raise", "AttributeError", s)]
             if isinstance(node.func, ast.Attribute) and node.func.attr == "join" and len(recv) == 1 and recv[0].kind == "const" \
                     and isinstance(recv[0].value, (str, bytes)) and len(args) == 1 and args[0].kind == "const" and not kws \
                     and isinstance(args[0].value, (list, tuple)) and all(isinstance(x, type(recv[0].value)) for x in args[0].value):
@@ -1960,6 +1975,12 @@ class Walker:
             m_ = self.prog.resolve_method(concrete, args[1].value)
             if m_ is not None:
                 return [("val", AVal("bound", m_), s)]
+            if self.exact_loops and len(args) == 2 and not self.prog.external_bases(concrete) \
+                    and self.prog.resolve_method(concrete, "__getattr__") is None and self.prog.class_attr(concrete, args[1].value) is None \
+                    and not _attr_assigned_anywhere(self.prog, concrete, args[1].value):
+                # no method, class attribute or instance attribute of that name anywhere in the (all-repository) hierarchy
+                s.add(Event("raise", node, "AttributeError", self.frame, "implicit"))
+                return [("raise", "AttributeError", s)]
         if dotted(node.func) == "dict.fromkeys" and 1 <= len(args) <= 2 and not kws and all(a.kind == "const" for a in args) \
                 and isinstance(args[0].value, (list, tuple, str, dict)):
             try:
@@ -2074,6 +2095,12 @@ class Walker:
                 # the summary says that the call fails: AVal("raise", <exception name>)
                 s.add(Event("raise", node, val.value, self.frame, "implicit"))
                 return out + [("raise", val.value, s)]
+        rv_ = self.cur_recv
+        if val is None and self.exact_loops and isinstance(node.func, ast.Attribute) and rv_ is not None and rv_.kind == "const" \
+                and dotted(node.func.value) != "self" and type(rv_.value) in (str, bytes, int, bool, float) and not hasattr(rv_.value, node.func.attr):
+            # "text".items(), (3).strip(): no such method on a value of this type (the rule's own summaries had their say above)
+            s.add(Event("raise", node, "AttributeError", self.frame, "implicit"))
+            return out + [("raise", "AttributeError", s)]
         # -- a generator of the repository used as a value (list(gen()), x.extend(gen()), "".join(gen())): in evaluator mode
         #    it is run to the end and stands for the list of what it yields
         if val is None and self.exact_loops and target.kind == "repo" and len(target.funcs) == 1 and target.funcs[0] is not None \
